@@ -79,6 +79,9 @@ FORCED = [
     [("INBOX", ["FETCH 3:5 (UID FLAGS BODY.PEEK[HEADER.FIELDS (X-CID)])", "NOOP"]), ("INBOX", ["UID EXPUNGE 2", "NOOP"])],
     [("INBOX", ["COPY 3:5 other", "NOOP"]), ("INBOX", ["EXPUNGE"]), ("INBOX", ["STORE 5 +FLAGS (\\Flagged)", "NOOP"])],
     [("#", ["nodeleted"]), ("INBOX", ["STORE 4:5 FLAGS (kwx)", "NOOP"]), ("INBOX", ["UID MOVE 1:2 other"]), ("INBOX", ["MOVE 3 other", "NOOP"])],
+    # the source mailbox of a COPY/MOVE is deleted by another session once the source has been read
+    [("other", ["UID COPY 1:2 INBOX"]), (None, ["EXAMINE other"]), (None, ["NOOP", "DELETE other"])],
+    [("other", ["UID MOVE 1:3 INBOX", "NOOP"]), (None, ["DELETE other"]), ("INBOX", ["NOOP", "NOOP"])],
     # message numbers on disk differ from sequence numbers (UIDs are 2..6 here): a narrow UID EXPUNGE beside readers
     [("#", ["gap"]), ("INBOX", ["UID FETCH 2:6 (FLAGS BODY.PEEK[HEADER.FIELDS (X-CID)] BODY.PEEK[])"]), ("INBOX", ["UID EXPUNGE 3"])],
     [("#", ["gap"]), ("INBOX", ["UID COPY 2:6 other"]), ("INBOX", ["UID EXPUNGE 5", "NOOP"]), ("INBOX", ["UID SEARCH TEXT body"])],
